@@ -130,6 +130,13 @@ def check_tables(_):
 def run(ctx):
     from props import c01_deductive
     c01_deductive.run(ctx)
+    from contracts import c_import
+    ctx.verify(c_import.engine(), c_import.VERIFY, min_obligations={c_import.KEY: 10})
+    asm, goal = c_import.roundtrip_lemma()
+    ctx.lemma("slice-roundtrip: import(export(slice)) selects the same bits (over the contracts of export_slice, "
+              "import_connection_target and _slice_inner)", asm, goal)
+    ctx.assumptions.append("import_concat / from_proto's module and instance loops are not under contract (bounded part); "
+                           "the protobuf oneof of a ConnectionTarget is modelled as ghost state of the record")
     ctx.run_bounded("tables", ["tables"], check_tables, rule="21 prefixes and 4 port directions, exhaustive",
                     bound="finite tables, complete", key_of=repr)
     cases = itertools.chain(design_family(ctx.tier, ctx.seed), param_programs())
